@@ -180,10 +180,26 @@ pub fn monitor(o: &Obs, events: &[&str]) -> Result<(), String> {
         }
         if o.closed && !o.last_sink_pending { return Err("C16: the registration channel is closed, no sink is pending, yet the topic sleeps instead of finishing".into()); }
     }
-    if asleep {
-        // every stream that was enqueued before the last poll has been adopted; it must have ended
-        let polls = events.iter().filter(|e| e.starts_with("poll")).count();
-        let _ = polls;
+    // C09: … nor while a publisher stream it has adopted was last seen yielding (an item or an error, not Pending and
+    // not its end): that stream holds no waker, so whatever it has next is never looked at
+    if sleeping_for_good && !o.last_sink_pending && !o.closed {
+        let calls = o.line.split(" | acc=").next().unwrap_or("");
+        for t in 0..o.stream_ended.len() {
+            let pre = format!("t{t}");
+            let mut last: Option<char> = None;
+            for seg in calls.split(" ; ") {
+                let body = seg.strip_prefix("poll:").unwrap_or("").split("->").next().unwrap_or("");
+                for tok in body.split(',') {
+                    if let Some(rest) = tok.strip_prefix(pre.as_str()) {
+                        let k = rest.chars().next().unwrap_or('?');
+                        if matches!(k, 'i' | 'x' | 'p' | 'e') { last = Some(k); }
+                    }
+                }
+            }
+            if matches!(last, Some('i') | Some('x')) {
+                return Err(format!("C09: topic sleeps (no waker will fire) although publisher stream t{t} was still yielding when it was last polled: what it has next is never looked at"));
+            }
+        }
     }
     // C09: bounded work per step
     // … bounded by the data available: every scripted stream answer may cost a poll of its stream plus a
